@@ -9,7 +9,8 @@
  * Between the markers every *entry* into a file-system-mutating system call
  * (open/openat/creat with write intent or O_CREAT, write/pwrite64/writev on
  * fds > 2, rename*, unlink*, mkdir*, rmdir, chmod*, link*, symlink*,
- * truncate/ftruncate, fsync/fdatasync) is counted across all threads.
+ * truncate/ftruncate, fsync/fdatasync, copy_file_range, sendfile, splice, pwritev*, fallocate) is
+ * counted across all threads.
  *   K == 0: run to completion, print "COUNT n" and the call sequence to logfile.
  *   K >= 1: SIGKILL the whole process while the K-th counted call is stopped at
  *           entry, so that call and everything after it never happen.
@@ -43,6 +44,8 @@ static const char *name_of(long nr) {
     case SYS_symlink: return "symlink"; case SYS_symlinkat: return "symlinkat";
     case SYS_truncate: return "truncate"; case SYS_ftruncate: return "ftruncate";
     case SYS_fsync: return "fsync"; case SYS_fdatasync: return "fdatasync";
+    case SYS_copy_file_range: return "copy_file_range"; case SYS_sendfile: return "sendfile"; case SYS_splice: return "splice";
+    case SYS_pwritev: return "pwritev"; case SYS_pwritev2: return "pwritev2"; case SYS_fallocate: return "fallocate";
     }
     return NULL;
 }
@@ -138,8 +141,11 @@ int main(int argc, char **argv) {
                     int ok = 1;
                     long nr = si.entry.nr;
                     if (nr == SYS_write || nr == SYS_pwrite64 || nr == SYS_writev || nr == SYS_fsync || nr == SYS_fdatasync ||
-                        nr == SYS_ftruncate || nr == SYS_fchmod)
+                        nr == SYS_ftruncate || nr == SYS_fchmod || nr == SYS_sendfile || nr == SYS_pwritev || nr == SYS_pwritev2 ||
+                        nr == SYS_fallocate)
                         ok = fd_is_file(pid, (long)si.entry.args[0]);
+                    else if (nr == SYS_copy_file_range || nr == SYS_splice) /* destination fd is the third argument */
+                        ok = fd_is_file(pid, (long)si.entry.args[2]);
                     if (ok) {
                         count++;
                         fprintf(lg, "%ld %s\n", count, name_of(nr));
